@@ -149,6 +149,7 @@ def scenarios(tier):
         out.append((f'{T.__name__}{U.__name__}:dup-instances', [T('x', (U('d1'), U('d1')))], []))
         out.append((f'{T.__name__}{U.__name__}:dup-instances-unread', [T('x', (U('d1'), U('d1')), 'ignore')], []))
         out.append((f'{T.__name__}{U.__name__}:flat3', [U('d1'), U('d2'), U('d3')], []))
+        out.append((f'{T.__name__}{U.__name__}:equal-objects-at-different-depths', [U('d1'), T('m', (U('d1'),)), T('top2', (T('m', (U('d1'),)),))], []))
     # failures
     for T in (A, K):
         bad = T('bad', (), 'fail')
@@ -310,6 +311,31 @@ def explore_controlled(tier, budget_s):
     return found, n_sched, truncated
 
 
+def explore_multicall():
+    """Histories of several run_tasks calls over the SAME task objects (notebook-style reuse): every call must read the
+    dependencies' results of THAT call; a dependency that failed in this call must raise, not yield an earlier value."""
+    import labtech
+    from replay.universe import X
+    logging.getLogger('labtech').setLevel(logging.CRITICAL)
+    found = []
+    for backends in (['serial', 'serial', 'serial'], ['serial', 'fork', 'serial']):
+        a, b = X('a'), X('b')
+        top = X('top', (a, b))
+        hist = [dict(gen=1), dict(gen=2, fail='a'), dict(gen=3)]
+        for k, (ctx, backend) in enumerate(zip(hist, backends)):
+            with tempfile.TemporaryDirectory() as d:
+                lab = labtech.Lab(storage=d, runner_backend=backend, continue_on_failure=True, context=ctx, max_workers=2)
+                res = lab.run_tasks([top], disable_progress=True, disable_top=True)
+            if ctx.get('fail'):
+                if top in res:
+                    found.append(dict(prop='C02', scenario=f'multicall/{"-".join(backends)}', message=f'call {k + 1}: dependency a failed in this call but top still returned {res[top]!r} (a value from an earlier call was read)'))
+            else:
+                want = ('top', ctx['gen'], (('a', ctx['gen'], ()), ('b', ctx['gen'], ())))
+                if res.get(top) != want:
+                    found.append(dict(prop='C02', scenario=f'multicall/{"-".join(backends)}', message=f'call {k + 1}: top read {res.get(top)!r}, this call\'s dependency results give {want!r}'))
+    return found
+
+
 # --------------------------------------------------------------------------- part 2: real process backends
 REAL = r'''
 import os, sys, time, signal, json, tempfile, logging
@@ -321,7 +347,7 @@ def mark(tag):
     with open(os.path.join(MARKS, f'{time.time():.4f}-{os.getpid()}-{tag}'), 'w'):
         pass
 
-@labtech.task(cache=None)
+@labtech.task
 class Slow:
     n: int
     secs: float = 0.6
@@ -348,7 +374,7 @@ class Die:
         mark(f'start-Die-{self.n}')
         os.kill(os.getpid(), signal.SIGKILL)
 
-@labtech.task(cache=None)
+@labtech.task
 class Quick:
     n: int
     def run(self):
@@ -365,7 +391,15 @@ def main():
         'all-die-one-worker': [Die(0), Quick(1), Quick(2)],
     }[scen]
     with tempfile.TemporaryDirectory() as d:
-        lab = labtech.Lab(storage=d, runner_backend=backend, max_workers=workers, continue_on_failure=True)
+        storage = d
+        if scen == 'quick-then-slow':
+            from labtech.storage import LocalStorage
+            class SlowStorage(LocalStorage):          # a slow backing store keeps the coordinator busy between submissions
+                def exists(self, key):
+                    time.sleep(0.3)
+                    return super().exists(key)
+            storage = SlowStorage(d)
+        lab = labtech.Lab(storage=storage, runner_backend=backend, max_workers=workers, continue_on_failure=True)
         t0 = time.time()
         res = lab.run_tasks(tasks, disable_progress=True, disable_top=True)
         print(json.dumps(dict(returned=len(res), secs=round(time.time() - t0, 2))))
@@ -458,6 +492,11 @@ def main():
         items.append(dict(name='explore:controlled-schedules', bounded=True,
                           bound=f'{len(scenarios(a.tier))} scenarios of <= 5 tasks, every completion order one task per wait (schedules run: {n}{", truncated by budget" if trunc else ""})',
                           violation=bool(mine), witness=mine[:3], other_properties=sorted({f['prop'] for f in found if f['prop'] != a.prop})))
+        if a.prop in ('C02', 'C01', ''):
+            f3 = explore_multicall()
+            mine3 = [f for f in f3 if not a.prop or f['prop'] == a.prop or a.prop == 'C01']
+            items.append(dict(name='explore:multi-call-histories', bounded=True, bound='2 histories of 3 run_tasks calls over the same task objects',
+                              violation=bool(mine3), witness=mine3[:3]))
         if a.prop in ('C04', 'C05', 'C10', 'C11', ''):
             found2, runs = explore_real(a.tier, {a.prop} if a.prop else {'C04', 'C05', 'C10', 'C11'})
             mine2 = [f for f in found2 if not a.prop or f['prop'] == a.prop]
